@@ -65,6 +65,8 @@ class TabularPOMDP(TabularMarkovDecisionProcess, PartiallyObservableMDP):
         for ai, a in enumerate(self.action_list):
             for nsi, ns in enumerate(self.state_list):
                 for o, p in self._cached_observation_dist(a, ns).items():
+                    if p == 0.:
+                        continue
                     obs[ai, nsi, ooi[o]] = p
         return obs
 
